@@ -150,6 +150,8 @@ Proof.
     set (s5 := set_ddam _ _).
     assert (E5 : ress s5 = ress s) by (unfold s5; cbn [set_ddam set_damm set_kamm ress]; rewrite A4; unfold s3; cbn [set_samm ress]; congruence).
     destruct (get_set s5 h); cbn [fst set_sets set_sidx ress]; exact E5.
+  - apply res_keep_same. unfold store_add_key. destruct (ref_set s d) as [h|]; [|reflexivity].
+    destruct (get_set s h) as [ds|]; [|reflexivity]. destruct (dset_add_key ds tok) as [d' r]. reflexivity.
 Qed.
 
 (** * a new annotation *)
@@ -371,6 +373,7 @@ Proof.
     eapply samelen_trans; [exact S1|]. eapply samelen_trans; [exact S2|].
     eapply samelen_trans; [apply (samelen_same s2 s3); reflexivity|]. eapply samelen_trans; [exact S4|].
     apply samelen_same. destruct (get_set _ h); reflexivity.
+  - apply samelen_same. apply (store_add_key_core s d tok).
 Qed.
 
 
